@@ -3,6 +3,7 @@ mod c10;
 mod common;
 mod detectors;
 mod layout;
+mod report;
 
 use common::*;
 
@@ -40,6 +41,12 @@ fn main() {
             layout::record(&a(2), &a(3), &a(4), a(5).parse().unwrap_or(8), &mut w, &mut t, &mut out);
             w.finish();
             t.finish();
+        }
+        "report-replay" => {
+            // report-replay <behaviours> <k renderings> <random maps> <trace>
+            let mut w = NdjsonWriter::new(&a(5));
+            report::replay(&a(2), a(3).parse().unwrap_or(8), a(4).parse().unwrap_or(0), &mut w, &mut out);
+            w.finish();
         }
         _ => usage(),
     }
